@@ -115,7 +115,19 @@ class PathView:
 
     def shifted(self):
         S = self.S
-        return self.possible(S.xm * S.xm + S.ym * S.ym) <= {"+"}
+        if self.possible(S.xm * S.xm + S.ym * S.ym) <= {"+"}:
+            return True
+        # the same case distinction written per coordinate (xm != 0 or ym != 0)
+        if "0" not in self.possible(S.xm) or "0" not in self.possible(S.ym):
+            return True
+        # ... or on some function of the tower position that the code computes first (it is then judged by R-PHASE)
+        pos_atoms = {atom_of(S.xm), atom_of(S.ym)}
+        for e, op, d in getattr(self.r, "constraints", []):
+            if pos_atoms & set(e.atoms()):
+                nonzero = (op in (">", "<", "!=") and d) or (op == "==" and not d)
+                if nonzero:
+                    return True
+        return False
 
     def clamp_state(self):
         """(x exceeds?, y exceeds?) as decided on this path: True/False/None"""
